@@ -15,6 +15,11 @@ type Tally struct {
 	classes map[string]bool
 	// Trace, when set, recomputes the printed stack of the panic being reported.
 	Trace func() string
+	// Prefix is put in front of every outcome class (to keep program families apart).
+	Prefix string
+	// ClassSuffix is appended to the class of value/error disagreements (not of
+	// panics): a classifier of the input class the caller evaluated on the program.
+	ClassSuffix string
 }
 
 func NewTally(r *kit.Result) *Tally { return &Tally{R: r, classes: map[string]bool{}} }
@@ -23,7 +28,7 @@ func (t *Tally) Outcome(o string) {
 	if t.R.Outcomes == nil {
 		t.R.Outcomes = map[string]int64{}
 	}
-	t.R.Outcomes[o]++
+	t.R.Outcomes[t.Prefix+o]++
 }
 
 func (t *Tally) Violate(class, format string, a ...interface{}) {
@@ -78,6 +83,7 @@ func Judge21(t *Tally, what string, text string, ref Outcome, ev Events, vm Outc
 	default:
 		class = "wrong-value:" + dynTag(ev)
 	}
+	class += t.ClassSuffix
 	t.Outcome(what + "DISAGREE:" + class)
 	t.Violate(class, "VM and reference interpreter disagree on %s\n reference: %s\n vm:        %s", text, ref, vm)
 	return false
